@@ -14,7 +14,6 @@ theorem sub_calls : Nsq.Gen.Life.subCalls = ["GetTopic", "GetChannel", "AddClien
 /-- the re-check covers ephemeral topics only (a SUB racing the deletion of a durable topic is attached to the
 dead object — `Props.C08TopicDelete.witnessZombie`) or every topic (fixes/F19) -/
 theorem sub_guard_shape :
-    Nsq.Gen.Life.subGuard = ["if (channel.ephemeral && channel.Exiting()) || (topic.ephemeral && topic.Exiting())"] ∨
     Nsq.Gen.Life.subGuard = ["if (channel.ephemeral && channel.Exiting()) || topic.Exiting()"] := by decide
 
 /-- `DeleteExistingTopic`: lookup under the read lock, `topic.Delete()`, then under the write lock the unlink
@@ -23,8 +22,7 @@ and the post-delete persist; either the result of `Delete()` is ignored and the 
 object (fixes/F20) -/
 theorem delete_topic_shape :
     Nsq.Gen.Life.deleteTopicCalls = ["RLock", "RUnlock", "RUnlock", "Delete", "Lock", "delete", "persistMetadataAfterDelete", "Unlock"] ∧
-    (Nsq.Gen.Life.deleteTopicStmts = [] ∨
-     Nsq.Gen.Life.deleteTopicStmts = ["if err == errExiting", "if n.topicMap[topicName] == topic"]) := by decide
+    Nsq.Gen.Life.deleteTopicStmts = ["if err == errExiting", "if n.topicMap[topicName] == topic"] := by decide
 
 /-- the ephemeral topic's `deleteCallback` is `DeleteExistingTopic` of the topic's *name*: the model's
 `delBegin … delUnlink` steps, enabled whenever the name is registered -/
@@ -37,8 +35,9 @@ def treeModel : Nsq.Model.TopicDelete.DSt :=
   { subGuard := Nsq.Gen.Life.subGuard == ["if (channel.ephemeral && channel.Exiting()) || topic.Exiting()"],
     ownUnlink := Nsq.Gen.Life.deleteTopicStmts == ["if err == errExiting", "if n.topicMap[topicName] == topic"] }
 
-theorem tree_model_known :
-    treeModel = {} ∨ treeModel = { subGuard := true } ∨ treeModel = { ownUnlink := true } ∨
-    treeModel = Nsq.Model.TopicDelete.fixedTree := by decide
+/-- F19 (/repo 8445d6a) and F20 (dbf8a73) are committed: the tree's instance **is** the repaired one (audit B12:
+no disjunction any more) — `Props.C08TopicDelete.no_zombie_fixed` is thereby a theorem about the tree, and a tree
+that reverts either repair breaks this tie (and the replays `topic_delete_races_sub`, `topic_double_delete_unlinks_fresh`) -/
+theorem tree_model_known : treeModel = Nsq.Model.TopicDelete.fixedTree := by decide
 
 end Nsq.Tie.TopicDelete
